@@ -59,7 +59,8 @@ def build(p: Dict[str, Any]) -> Dict[str, Any]:
         # ... and once more, in the middle of the list, spelled differently: the imports after it must still resolve
         "imports": ["lib/imp.yaml", "lib/extra.yaml", "./lib/imp.yaml", "lib/zeta/indep.yaml", "lib/../lib/extra.yaml", "alpha.yaml"],
         "constants": {"K2": "K * 2", "BIG": "K * 1000 + 7", "HALF": "K / 2", "INV": "1 / K", "SPAN": "(K2 + 1) / 2",
-                      "CONSTANT_WITH_A_NAME_THAT_GOES_PAST_COLUMN_FORTY_EIGHT": 77},
+                      "CONSTANT_WITH_A_NAME_THAT_GOES_PAST_COLUMN_FORTY_EIGHT": 77,
+                      **{f"W{i}": i + 1 for i in range(12)}, "WIDE": " + ".join(f"W{i}" for i in range(12))},
         "string_constants": {"GREETING": "hello world"},
         "aliases": {"A1": p["n4"], "A2": "A1"},
         "host_ids": {"MYHOST": 10, "CHID_X": 11},
